@@ -529,14 +529,14 @@ class POXCore (EventMixin):
         components = [components]
     if name is None:
       #TODO: Use inspect here instead
-      name = getattr(callback, '__name__')
+      name = getattr(callback, '__name__', None)
       if name is None:
         name = str(callback)
       else:
         name += "()"
         if hasattr(callback, '__self__'):
           name = getattr(callback.__self__.__class__,'__name__','')+'.'+name
-      if hasattr(callback, '__module__'):
+      if getattr(callback, '__module__', None):
         # Is this a good idea?  If not here, we should do it in the
         # exception printing in try_waiter().
         name += " in " + callback.__module__
